@@ -81,6 +81,29 @@ def run(rep, tier, seed):
         for j, tag in enumerate(tags):
             vals[tag] = ans[j] if j < len(ans) else None
     ev = BC.byte_jobs("c15", items)
+    # the hypothesis of nlr_no_panic on the REAL LALR_RN table of every GLR case
+    gl_ok = [r for r in gresults if r.status == "OK" and r.dump is not None and not r.dump.missing_rec]
+    gjobs = []
+    for k in range(0, len(gl_ok), 8):
+        chunk = gl_ok[k:k + 8]
+        body = ["From RV Require Import Spec.Validators Spec.ValidatorsRN.\nOpen Scope nat_scope.\n"]
+        for r in chunk:
+            body.append("Eval vm_compute in let g := %s in [wf_grammar_b g; safe_rn_b g (%s)]." % (gl_grammar(r.dump), gl_table(r.dump)))
+        gjobs.append(("c15gv_%d" % (k // 8), "\n".join(body) + "\n", chunk))
+    n_glr_tables = 0
+    for (name, body, chunk), (ok, out) in zip(gjobs, coq_eval_many([(j[0], j[1]) for j in gjobs])):
+        ans = parse_bools(out) if ok else []
+        for j, r in enumerate(chunk):
+            v = ans[j] if j < len(ans) else None
+            if v is None:
+                rep.violation("coq-eval", "Coq evaluation of safe_rn_b failed", dict(grammar=r.case.grammar, out=out[-800:]),
+                              found_input=False)
+            elif not all(v):
+                rep.violation("safe_rn_b", "safe_rn_b is false on the real LALR_RN table (nlr_no_panic no longer applies)",
+                              dict(grammar=r.case.grammar, table="LALR_RN", algo="GLR", flags=r.case.flags, vals=v,
+                                   obligation="Spec.ValidatorsRN.safe_rn_b / Properties.C15.nlr_no_panic"), found_input=False)
+            else:
+                n_glr_tables += 1
 
     n_runs = n_nontrivial = 0
     acyclic_false = 0
@@ -232,7 +255,7 @@ def run(rep, tier, seed):
         obligations=nthm + nval, discharged=(pt.get("closed", 0) if not rep.violations else 0) + nval,
         checker_cmd="make -C coq Properties/C15.vo ; coqc work/c15v_*.v (vm_compute of safe_b, reduce_acyclic_b)",
         trusted_base=TRUSTED_BASE, theorems=pt.get("theorems", []),
-        programs=len(items), evaluations=n_runs, distinct_nontrivial=n_nontrivial,
+        programs=len(items), evaluations=n_runs, distinct_nontrivial=n_nontrivial, glr_tables_passing_safe_rn_b=n_glr_tables,
         rule="byte-level grammars (string/regex terminals, Layout rules) x rendered sentences/non-sentences + garbage "
              "UTF-8 strings (control characters, multi-byte scalars, empty, long repeats) through the real LRParser and "
              "GlrParser under catch_unwind + watchdog; custom lexers `all` (context-free: tries every terminal) and "
